@@ -32,6 +32,30 @@ type G struct {
 	// capabilities, probed once
 	CanBase, CanMulNil, CanPick, CanEmbed, CanHash, CanData bool
 	PanicsSeen                                             map[string]string // op -> first non-"unsupported" panic text seen by the probe
+
+	// encodings of the library's constants taken once, before any workload ran (to detect a workload step that corrupts
+	// state shared by all values of the group, e.g. a cached identity)
+	NullEnc, GenEnc, ZeroEnc, OneEnc []byte
+}
+
+// ConstantsIntact re-derives the constants and compares them with the encodings taken at start-up.
+func (g *G) ConstantsIntact() (bool, string) {
+	if g.NullEnc == nil {
+		return true, ""
+	}
+	if string(Enc(g.Point().Null())) != string(g.NullEnc) {
+		return false, "Point().Null()"
+	}
+	if string(Enc(g.Gen())) != string(g.GenEnc) {
+		return false, "generator"
+	}
+	if string(Enc(g.Scalar().Zero())) != string(g.ZeroEnc) {
+		return false, "Scalar().Zero()"
+	}
+	if string(Enc(g.Scalar().One())) != string(g.OneEnc) {
+		return false, "Scalar().One()"
+	}
+	return true, ""
 }
 
 // PS is a pairing suite.
@@ -134,6 +158,11 @@ func All() []*G {
 		G := &G{Name: n, Grp: g, VarTime: vt, Suite: ps, Kind: kind, PanicsSeen: map[string]string{}}
 		G.Q = new(big.Int).Set(g.Scalar().GroupOrder().ToBigInt())
 		G.probe()
+		func() {
+			defer func() { _ = recover() }()
+			G.NullEnc, G.GenEnc = Enc(G.Point().Null()), Enc(G.Gen())
+			G.ZeroEnc, G.OneEnc = Enc(G.Scalar().Zero()), Enc(G.Scalar().One())
+		}()
 		gs = append(gs, G)
 	}
 	add("ed25519", edwards25519.NewBlakeSHA256Ed25519(), false, nil, "")
@@ -147,6 +176,33 @@ func All() []*G {
 		add(ps.Name+".GT", ps.S.GT(), false, ps, "GT")
 	}
 	return gs
+}
+
+// ResidueR6 is a Schnorr (residue) group with cofactor R = 6 (P = 6Q+1, 163-bit P, 160-bit Q) built through the public
+// ResidueGroup.SetParams API: unlike the shipped QR512 (R = 2) being a quadratic residue does not imply membership.
+// It is an extra configuration used by the decoder and embedding monitors (not one of the 20 registry instances).
+func ResidueR6() *G {
+	P, _ := new(big.Int).SetString("54d1822a8b597b3b537790d3399336d8f7b7b4adf", 16)
+	Q, _ := new(big.Int).SetString("e22eb0717399489e33e9823344333ced3f3f3725", 16)
+	rg := new(p256.ResidueGroup)
+	rg.SetParams(P, Q, big.NewInt(6), big.NewInt(0x40))
+	g := &G{Name: "residue-r6", Grp: rg, PanicsSeen: map[string]string{}}
+	g.Q = new(big.Int).Set(Q)
+	g.probe()
+	g.NullEnc, g.GenEnc = Enc(g.Point().Null()), Enc(g.Gen())
+	g.ZeroEnc, g.OneEnc = Enc(g.Scalar().Zero()), Enc(g.Scalar().One())
+	return g
+}
+
+// ResiduePQ returns the modulus and subgroup order of a residue group instance (nil, nil for other groups).
+func ResiduePQ(g *G) (P, Q *big.Int) {
+	switch v := g.Grp.(type) {
+	case *p256.QrSuite:
+		return v.P, v.Q
+	case *p256.ResidueGroup:
+		return v.P, v.Q
+	}
+	return nil, nil
 }
 
 // Select filters by comma-separated substrings (empty = all).
